@@ -342,7 +342,7 @@ def run_property(prop, tier, seed, replay=None, jobs=None, only=None):
                 msg = str((t.get("problems") or [""])[0]) if t.get("problems") else ("" if t.get("kind") else d["message"])
                 key = (sub.name,) + tuple("%s=%s" % (k, t.get(k)) for k in (
                     "kind", "cmd", "prev_kind", "exc", "op", "field", "segkind", "first_kind", "status", "entry",
-                    "fault", "family", "getter", "setter", "unit", "ua", "ub", "form", "fn", "which", "access", "u1", "u2", "wrap", "pos", "side", "names", "nargs", "align", "mos", "supply", "comp", "ws", "vb", "complete", "zero_vb", "zero_el", "reify", "obj", "event", "shape", "how", "m", "kind2", "build", "within_6digit_envelope", "tpl", "arc", "ctx", "fragment", "seg", "fam", "defect", "stroke", "sub_kind", "group", "zero", "curve", "variant", "conv", "n", "pos", "nomove", "src", "der", "side", "mut") if t.get(k) is not None) + (
+                    "fault", "family", "getter", "setter", "unit", "ua", "ub", "form", "fn", "which", "access", "u1", "u2", "wrap", "pos", "side", "names", "nargs", "align", "mos", "supply", "comp", "ws", "vb", "complete", "zero_vb", "zero_el", "reify", "obj", "event", "shape", "how", "m", "kind2", "build", "within_6digit_envelope", "tpl", "arc", "ctx", "fragment", "seg", "fam", "defect", "stroke", "sub_kind", "group", "zero", "curve", "variant", "conv", "n", "pos", "nomove", "src", "der", "side", "mut", "root", "chain", "leaf", "shape_id") if t.get(k) is not None) + (
                     re.sub(r"[-+]?[0-9]*\.?[0-9]+(?:[eE][-+]?[0-9]+)?", "#", msg)[:150],)
                 grp[key] += 1
                 ex.setdefault(key, d["case"])
